@@ -30,9 +30,9 @@ META = {
             'SHA/MD5/HMAC are oracles (not verified here).',
     'technique': 'Rocq/Coq proof over translator-regenerated model + vm_compute correspondence + independent references',
 }
-UNITS = ['C09_Poly1305', 'C09_ChaCha', 'C09_ChaChaPoly', 'C09_KDF', 'C09_RC4', 'C09_AesModes']
+UNITS = ['C09_Poly1305', 'C09_ChaCha', 'C09_ChaChaPoly', 'C09_KDF', 'C09_RC4', 'C09_AesModes', 'C09_GCM', 'C09_CCM']
 MODEL_TARGETS = ['Gen/%s.vo' % u for u in UNITS] + ['Spec/C09_Poly1305.vo', 'Spec/C09_ChaCha.vo', 'Spec/C09_ChaChaPoly.vo',
-                                                  'Spec/C09_KDF.vo', 'Spec/C09_KeyCalc.vo', 'Model/C09_KeyCalc.vo', 'Toy/C09_ToyOracle.vo', 'Spec/C09_Modes.vo']
+                                                  'Spec/C09_KDF.vo', 'Spec/C09_KeyCalc.vo', 'Model/C09_KeyCalc.vo', 'Toy/C09_ToyOracle.vo', 'Spec/C09_Modes.vo', 'Spec/C09_AEAD.vo']
 
 
 class State:
@@ -404,7 +404,7 @@ def sec_kdf(S, quick):
             out.append(('toy', v2, code2, None))
         return out
 
-    def add(expr_fmt, mode, v, code, table, meta, spec_fmt=None, tbl_limit=20000 if quick else 60000):
+    def add(expr_fmt, mode, v, code, table, meta, spec_fmt=None, tbl_limit=7000 if quick else 60000):
         o = 'None' if mode == 'toy' else '(Some %s)' % toys.table_lit(table)
         if len(o) > tbl_limit:
             return
@@ -449,8 +449,10 @@ def sec_kdf(S, quick):
                               dict(meta, impl=hexs(real[1]), code=real[2]))
             ctx.count('kdf:impl-vs-rfc-python', 1, [('hkdf', alg, cls, min(nblk, 4))])
             for mode, v, code, table in runs:
+                # the Coq spec recomputes T(1..i) for every i: quadratic; in quick only one long case goes through it
+                heavy = quick and nblk > 64 and not (alg == 'sha256' and L == 254 * hl)
                 add('HKDF_expand @O %s %s %d %s' % (blit(prk), blit(info), L, slit(alg)), mode, v, code, table, meta,
-                    'osome (hkdf_expand_rfc @O %s %s %s %d) @V' % (slit(alg), blit(prk), blit(info), L))
+                    None if heavy else 'osome (hkdf_expand_rfc @O %s %s %s %d) @V' % (slit(alg), blit(prk), blit(info), L))
     # ---- HKDF_expand_label / derive_secret (RFC 8446 7.1); the exporter passes a caller-chosen length
     for alg in ['sha256', 'sha384']:
         hl = ALG_DS[alg]
@@ -471,6 +473,7 @@ def sec_kdf(S, quick):
             ctx.count('kdf:impl-vs-rfc-python', 1, [('hkdf_label', alg, cls, len(label) > 249, len(ctxv) > 255)])
             for mode, v, code, table in runs:
                 add('HKDF_expand_label @O %s %s %s %d %s' % (blit(secret), blit(label), blit(ctxv), length, slit(alg)), mode, v, code, table, meta,
+                    None if (quick and nblk > 64) else
                     'osome (hkdf_expand_label_rfc @O %s %s %s %s %d) @V' % (slit(alg), blit(secret), blit(label), blit(ctxv), length))
         for tr in [None, b'', rbytes(rng, 50)]:
             secret, label = rbytes(rng, hl), rng.choice([b'derived', b'c ap traffic', b'res master'])
@@ -961,7 +964,177 @@ def sec_modes(S, quick):
     S.sections.append(sec)
 
 
-SECTIONS = [sec_poly, sec_chacha, sec_chachapoly, sec_kdf, sec_modes]
+# ============================================================================ AES-GCM, AES-CCM / CCM-8
+AEAD2_PRE = """
+Definition BT := (list (list Z * list Z))%type.
+Definition borc (t : option BT) : BlockOracle := match t with Some tbl => table_block_oracle tbl | None => toy_block_oracle end.
+Definition CT := (Z * option BT * list Z * list Z * list Z * list Z * option (list Z) * Z * list Z * list Z * list Z * option (option (list Z)) * Z)%type.
+Definition chk_model (c : CT) : bool :=
+  let '(kind, t, key, nonce, pt, aad, sealed, scode, nonce2, c2, aad2, opened, ocode) := c in
+  let O := borc t in
+  if LONGAAD <? zlen aad then true    (* the generated CBC-MAC updates a list in place: quadratic; long AAD is checked on the spec only *)
+  else if kind =? 0 then
+    res_matches list_eqb (o <- gcm_init O key "python" 0 ;; r <- gcm_seal O o nonce pt aad ;; Ok (snd r)) sealed scode &&
+    res_matches opt_list_eqb (o <- gcm_init O key "python" 0 ;; r <- gcm_open O o nonce2 c2 aad2 ;; Ok (snd r)) opened ocode
+  else
+    res_matches list_eqb (o <- ccm_init O key "python" 0 kind ;; r <- ccm_seal O o nonce pt aad ;; Ok (snd r)) sealed scode &&
+    res_matches opt_list_eqb (o <- ccm_init O key "python" 0 kind ;; r <- ccm_open O o nonce2 c2 aad2 ;; Ok (snd r)) opened ocode.
+Definition chk_spec (c : CT) : bool :=
+  let '(kind, t, key, nonce, pt, aad, sealed, scode, nonce2, c2, aad2, opened, ocode) := c in
+  let E := bo_enc (borc t) key in
+  match sealed with
+  | Some s => list_eqb (if kind =? 0 then gcm_seal_spec E nonce pt aad else ccm_seal_spec E kind nonce pt aad) s
+  | None => true end &&
+  match opened with
+  | Some o => opt_list_eqb (if kind =? 0 then gcm_open_spec E nonce2 c2 aad2 else ccm_open_spec E kind nonce2 c2 aad2) o
+  | None => true end.
+"""
+
+
+def sec_aesaead(S, quick):
+    import c09_toys as toys
+    from tlslite.utils.aesgcm import AESGCM
+    from tlslite.utils.aesccm import AESCCM
+    from tlslite.utils.rijndael import Rijndael
+    ctx, rng = S.ctx, S.ctx.rng
+    sec = Section('C09aead', ['Base.C09_Oracle', 'Gen.C09_AesModes', 'Gen.C09_GCM', 'Gen.C09_CCM', 'Spec.C09_AEAD', 'Toy.C09_ToyOracle'],
+                  'CT', AEAD2_PRE.replace('LONGAAD', '5000' if quick else '65280'))
+    sec.fns = [('chk_model', 'model', 'aesaead:model-vs-impl'), ('chk_spec', 'spec', 'aesaead:coqspec-vs-impl')]
+
+    class Rec(object):
+        def __init__(self, inner, key, table):
+            self.inner, self.key, self.table = inner, bytes(key), table
+
+        def encrypt(self, b):
+            r = self.inner.encrypt(b)
+            if self.table is not None:
+                self.table[(1, self.key, bytes(b))] = bytes(r)
+            return r
+
+        def decrypt(self, b):
+            r = self.inner.decrypt(b)
+            if self.table is not None:
+                self.table[(2, self.key, bytes(b))] = bytes(r)
+            return r
+
+    def mk(kind, key, toy, table):
+        blk = toys.ToyBlock(key) if toy else Rec(Rijndael(bytearray(key), 16), key, table)
+        if kind == 0:
+            o = AESGCM(bytearray(key), 'python', blk.encrypt)
+            o._ctr.rijndael = blk
+        else:
+            o = AESCCM(bytearray(key), 'python', bytearray(16), kind)
+            o._ctr.rijndael = blk
+            o._cbc.rijndael = blk
+        return o, blk
+    # NIST vectors (SP 800-38D test case 4, SP 800-38C example 3) against the implementation directly
+    H = bytes.fromhex
+    o, _ = mk(0, H('feffe9928665731c6d6a8f9467308308'), False, None)
+    v, _c = runf(lambda: bytes(o.seal(bytearray(H('cafebabefacedbaddecaf888')), bytearray(H(
+        'd9313225f88406e5a55909c5aff5269a86a7a9531534f7da2e4c303d8a318a721c3c0c95956809532fcf0e2449a6b525b16aedf5aa0de657ba637b39')),
+        bytearray(H('feedfacedeadbeeffeedfacedeadbeefabaddad2')))))
+    if hexs(v) != ('42831ec2217774244b7221b784d0d49ce3aa212f2c02a4e035c17e2329aca12e21d514b25466931c7d8f6a5aac84aa051ba30b396a0aac973d58e091'
+                   '5bc94fbc3221a5db94fae95ae7121a47'):
+        S.bad('gcm_seal!=sp800-38d:vector', 'AESGCM.seal fails SP 800-38D test case 4', {'unit': 'gcm', 'impl': hexs(v)})
+    o, _ = mk(8, H('404142434445464748494a4b4c4d4e4f'), False, None)
+    v, _c = runf(lambda: bytes(o.seal(bytearray(H('101112131415161718191a1b')), bytearray(range(0x20, 0x38)), bytearray(range(20)))))
+    if hexs(v) != 'e3b201a9f5b71a7a9b1ceaeccd97e70b6176aad9a4428aa5484392fbc1b09951':
+        S.bad('ccm_seal!=sp800-38c:vector', 'AESCCM(tag 8).seal fails SP 800-38C example 3', {'unit': 'ccm', 'impl': hexs(v)})
+    ctx.count('aesaead:impl-vs-vectors', 2, [('gcm',), ('ccm8',)])
+    cases = []
+    for kind in (0, 16, 8):
+        for kl in (16, 32):
+            for L in ([0, 1, 16, 17, 80] if quick else [0, 1, 15, 16, 17, 31, 32, 33, 64, 80, 81]):
+                for al in ([0, 13] if quick else [0, 1, 13, 16, 17, 40]):
+                    cases.append((kind, kl, 12, L, al, rng.choice(AEAD_MUTS), False))
+    for kind in (0, 16, 8):
+        for m in AEAD_MUTS:
+            cases.append((kind, 16, 12, rng.randrange(0, 50), rng.choice([0, 5, 13]), m, False))
+        cases += [(kind, 16, 11, 5, 5, 'none', False), (kind, 16, 13, 5, 5, 'none', False)]
+    # CCM: AAD length encodings around the 2^16 - 2^8 boundary (toy block function: the tables would be too large)
+    for kind in (16, 8):
+        for al in ([2 ** 16 - 2 ** 8 - 1, 2 ** 16 - 2 ** 8, 2 ** 16 + 2 ** 8] if quick else
+                   [2 ** 16 - 2 ** 8 - 1, 2 ** 16 - 2 ** 8, 2 ** 16 - 2 ** 8 + 1, 2 ** 16 - 1, 2 ** 16, 2 ** 16 + 2 ** 8]):
+            cases.append((kind, 16, 12, 20, al, 'none', True))
+    cases.append((0, 16, 12, 20, 2 ** 16 + 2 ** 8, 'flip-aad', True))
+    n_big_real = 0
+    for kind, kl, nl, L, al, mut, toy in cases:
+        key, nonce, pt, aad = rbytes(rng, kl), rbytes(rng, nl), rbytes(rng, L), rbytes(rng, al)
+        name = {0: 'gcm', 16: 'ccm', 8: 'ccm8'}[kind]
+        table = None if toy else {}
+        obj, blk = mk(kind, key, toy, table)
+        ecb = (lambda b: b''.join(bytes(blk.encrypt(bytearray(b[i:i + 16]))) for i in range(0, len(b), 16))) if toy else (lambda b: ref.aes_ecb(key, b))
+        sealed, scode = runf(lambda: bytes(obj.seal(bytearray(nonce), bytearray(pt), bytearray(aad))))
+        ok = nl == 12
+        cls = (name, mut, L % 16 and 1, min(L // 16, 5), 'aad>=65280' if al >= 65280 else (al % 16 and 1), toy)
+        meta = {'unit': name, 'toy': toy, 'key': key.hex(), 'nonce': nonce.hex(), 'pt': pt.hex(), 'aad': aad.hex() if al < 200 else 'len=%d' % al, 'mut': mut}
+        if ok:
+            want = ref.gcm_seal(ecb, nonce, pt, aad) if kind == 0 else ref.ccm_seal(ecb, kind, nonce, pt, aad)
+            if sealed != want:
+                S.bad('%s_seal!=spec:aad%s' % (name, '>=2^16-2^8' if al >= 65280 else '<2^16-2^8'),
+                      '%s.seal differs from %s' % (name, 'SP 800-38D' if kind == 0 else 'RFC 3610'), dict(meta, impl=hexs(sealed), code=scode, spec=want.hex()))
+            if kind == 0 and not toy and L == 0 and al > 0:
+                g = ref.ossl_gmac(key, nonce, aad)
+                ctx.count('aesaead:impl-vs-openssl', 1, [('gmac', kl)])
+                if sealed != g:
+                    S.bad('gcm_seal!=openssl-gmac', 'AESGCM.seal with empty plaintext differs from `openssl mac GMAC`', dict(meta, impl=hexs(sealed), openssl=g.hex()))
+            n2, c2, a2 = aead_mutate(rng, mut, nonce, sealed, aad, lambda a: bytes(obj.seal(bytearray(nonce), bytearray(pt), bytearray(a))))
+            if kind == 8 and mut == 'flip-tag':
+                c2 = bytearray(sealed)
+                c2[-1 - rng.randrange(8)] ^= 1 << rng.randrange(8)
+                c2 = bytes(c2)
+        else:
+            if scode != 2:
+                S.bad('%s:badnonce-accepted' % name, 'seal accepted a nonce that is not 12 bytes', meta)
+            n2, c2, a2 = nonce, rbytes(rng, 30), aad
+        res, ocode = runf(lambda: obj.open(bytearray(n2), bytearray(c2), bytearray(a2)))
+        opened = None if ocode else (None if res is None else bytes(res))
+        if len(n2) == 12:
+            want_o = ref.gcm_open(ecb, n2, c2, a2) if kind == 0 else ref.ccm_open(ecb, kind, n2, c2, a2)
+            untouched = ok and (bytes(n2), bytes(c2), bytes(a2)) == (nonce, sealed, aad)
+            if ocode or opened != want_o or (untouched and opened != pt):
+                S.bad('%s_open:%s' % (name, mut), '%s.open is not the inverse of seal / accepts a modified message' % name,
+                      dict(meta, nonce2=n2.hex(), c2=c2.hex(), impl=hexs(opened), code=ocode, spec=hexs(want_o)))
+        elif ocode != 2:
+            S.bad('%s:badnonce-accepted' % name, 'open accepted a nonce that is not 12 bytes', meta)
+        ctx.count('aesaead:impl-vs-spec-python', 1, [cls + (opened is not None,)])
+        tl = 'None' if toy else '(Some %s)' % blk_table_lit(table)
+        if len(tl) > (40000 if quick else 120000):
+            continue
+        if quick and al > 5000 and not (kind == 16 and al in (2 ** 16 - 2 ** 8 - 1, 2 ** 16 - 2 ** 8)):
+            continue        # quick: only the two boundary lengths go through Coq (literal size)
+        olit_open = 'None' if ocode else '(Some %s)' % olit(opened)
+        sec.add('(%d, %s, %s, %s, %s, %s, %s, %d, %s, %s, %s, %s, %d)' % (
+            kind, tl, blit(key), blit(nonce), blit(pt), blit(aad), olit(sealed), scode, blit(n2), blit(c2), blit(a2), olit_open, ocode), meta)
+    # GCM field arithmetic piece by piece: the 4-bit table multiply against the bitwise SP 800-38D multiply
+    hs = Section('C09gcmh', ['Base.C09_Oracle', 'Gen.C09_AesModes', 'Gen.C09_GCM', 'Spec.C09_AEAD', 'Toy.C09_ToyOracle'], 'bool', """
+Definition BT := (list (list Z * list Z))%type.
+Definition O1 (k e : list Z) : BlockOracle := table_block_oracle [(1 :: zlen k :: k ++ repeat 0 16, e)].
+""")
+    hs.fns = [('(fun b : bool => b)', 'model', 'gcm-pieces:model+coqspec-vs-impl')]
+    for _ in range(12 if quick else 100):
+        key = rbytes(rng, 16)
+        e0 = rng.choice([rbytes(rng, 16), bytes(15) + b'\x01', b'\x80' + bytes(15), b'\xff' * 16, bytes(16)])
+        o = AESGCM(bytearray(key), 'python', lambda b: bytearray(e0))
+        h = int.from_bytes(e0, 'big')
+        for y in [rng.getrandbits(128), 1, 1 << 127, (1 << 128) - 1, 0, rng.getrandbits(128)]:
+            v, code = runf(o._mul, y)
+            if v != ref._gf_mul(y, h):
+                S.bad('gcm_mul!=gf128', 'AESGCM._mul(y) differs from the SP 800-38D product y.H', {'unit': 'gcm_mul', 'h': hex(h), 'y': hex(y), 'impl': str(v)})
+            ctx.count('aesaead:impl-vs-spec-python', 1, [('gcm_mul', y in (0, 1))])
+            hs.add('match gcm_init (O1 %s %s) %s "python" 0 with Ok g => res_matches Z.eqb (gcm_mul (O1 %s %s) g %d) %s %d | Err _ => false end && Z.eqb (gf128_mul (borc_dummy %d) %d %d) %d' .replace('(borc_dummy %d) ', '%.0s') % (
+                blit(key), blit(e0), blit(key), blit(key), blit(e0), y, olit(v, zlit), code, 0, y, h, v if v is not None else -1),
+                {'fn': 'gcm_mul', 'h': hex(h), 'y': hex(y)})
+    for i in range(0, 18):
+        v, code = runf(AESGCM._reverseBits, i)
+        hs.add('res_matches Z.eqb (gcm_reverseBits (O1 [] []) %d) %s %d' % (i, olit(v, zlit), code), {'fn': '_reverseBits', 'i': i})
+    for x in [0, 1, 2, 3, (1 << 128) - 1, 1 << 127, rng.getrandbits(128)]:
+        hs.add('Z.eqb (gcm_gcmShift (O1 [] []) %d) %d' % (x, AESGCM._gcmShift(x)), {'fn': '_gcmShift', 'x': hex(x)})
+    S.sections.append(sec)
+    S.sections.append(hs)
+
+
+SECTIONS = [sec_poly, sec_chacha, sec_chachapoly, sec_kdf, sec_modes, sec_aesaead]
 
 
 # ============================================================================ driver
